@@ -24,9 +24,54 @@ def units(A, tier):
     return [("class", c.name) for c in A.concrete() if A.supports_threading(c)] + [("atomic", None)]
 
 
-def section_events(g):
+def ctor_raises_suspend(A):
+    """Read from the code, not assumed: constructing a nested node runs `with self._suspend_sync:` in the container
+    class's __init__, and a nested node's `_suspend_sync` is its root's - so building a child of a tree raises that
+    tree's (thread-shared) suspend counter for the duration of the conversion."""
+    if "ctor_raises_suspend" in A.cache:
+        return A.cache["ctor_raises_suspend"]
+    import ast as _ast
+    m = A.model
+    uses = False
+    for c in m.class_order:
+        if c.name in ("SyncedDict", "SyncedList") or (c.is_subclass_of("SyncedCollection") and "__init__" in c.methods):
+            f = c.methods.get("__init__")
+            if f is None:
+                continue
+            for n in _ast.walk(f.node):
+                if isinstance(n, _ast.With):
+                    for it in n.items:
+                        if isinstance(it.context_expr, _ast.Attribute) and it.context_expr.attr == "_suspend_sync":
+                            uses = True
+    shared = False
+    sc = m.find_class("SyncedCollection")
+    for fn in [f for f in m.functions if f.cls is sc]:
+        for n in _ast.walk(fn.node):
+            if isinstance(n, _ast.Assign) and any(isinstance(t, _ast.Attribute) and t.attr == "_suspend_sync" for t in n.targets) \
+                    and isinstance(n.value, _ast.Attribute) and n.value.attr == "_suspend_sync":
+                shared = True
+    A.cache["ctor_raises_suspend"] = uses and shared
+    return uses and shared
+
+
+def builds_child_of_T(n):
+    """A conversion / construction whose `parent` is a node of the receiver's tree."""
+    if n.kind not in ("call_pkg", "construct"):
+        return False
+    if n.kind == "call_pkg" and n["fname"] != "_from_base":
+        return False
+    kw = dict(n["kwargs"] or ())
+    p_ = kw.get("parent")
+    return p_ is not None and p_.kind == "inst" and p_.args[2] == "T"
+
+
+def section_events(g, A=None):
     ev = []
+    ctor = A is not None and ctor_raises_suspend(A)
     for n in live(g):
+        if ctor and builds_child_of_T(n) and not n.in_extent("_load") and not n.in_extent("_load_from_buffer"):
+            ev.append(n)
+            continue
         if is_user_mut(n):
             ev.append(n)
         elif n.kind == "enter" and n["fname"] in ("_load_from_resource", "_load_from_buffer", "_save_to_resource", "_save_to_buffer") and recv_is_root_T(n):
@@ -49,7 +94,7 @@ def run_unit(A, unit, rep, tier):
         for rho in ("root", "nested"):
             for mu in A.modes(cls):
                 b, g = A.graph(cls, m, rho, mu)
-                ev = section_events(g)
+                ev = section_events(g, A)
                 rep.context(g.label, any(is_user_mut(n) for n in ev))
                 if not ev:
                     continue
